@@ -1955,3 +1955,12 @@ mutant("c18-offclose-skips-last", "C18", "C18-D8", "client_manager_events.go",
 mutant("c15-purge-takes-ackless-events", "C15", "C15-D5", "client_socket.go",
        "			if packet.ackID != nil && *packet.ackID == id {",
        "			if packet.ackID == nil || *packet.ackID == id {")
+
+# C16: generic handler store (rows of the guarded-by table that were vacuous before fieldVar normalised to Origin())
+mutant("c16-handlerstore-offall-unlocked", "C16", "C16-D1", "store.go",
+       """func (e *handlerStore[T]) offAll() {
+	e.mu.Lock()
+	defer e.mu.Unlock()
+	e.funcs = nil""",
+       """func (e *handlerStore[T]) offAll() {
+	e.funcs = nil""")
